@@ -12,5 +12,6 @@ INVARIANT SameAnswer
 INVARIANT RecordedIsExecuted
 INVARIANT FaultMeansNoRun
 INVARIANT MutexPerKey
+INVARIANT BypassUnaffected
 POSTCONDITION Diagnose
 CHECK_DEADLOCK FALSE
